@@ -8,6 +8,7 @@ _FAMILIES = {
     "resp": ["C12"],
     "lease": ["C15"],
     "cache": ["C05", "C08"],
+    "fullsync": ["C03", "C04", "C20"],
 }
 
 REGISTRY = {}
